@@ -15,7 +15,9 @@ type Res = Result<i128, TimeLimiterError<i128>>;
 type Fut = Pin<Box<dyn Future<Output = Res>>>;
 
 fn run(s: &[i128]) -> Vec<i128> {
-    let cancel = zn(s, 0) != 0;
+    let cancel = zn(s, 0) % 2 != 0;
+    let cancel_first = zn(s, 0) >= 2;   // builder order: cancel_running_future before the timeout setter
+    fn ms(v: u64) -> Duration { if v >= 1_000_000_000_000_000 { Duration::MAX } else { Duration::from_millis(v) } }
     let dynamic = zn(s, 1) != 0;
     let n = zn(s, 2).max(0) as usize;
     let fixed = zn(s, 3).max(0) as u64;
@@ -27,11 +29,20 @@ fn run(s: &[i128]) -> Vec<i128> {
         // one service value; every call goes through poll_ready + call on a clone of it
         let mut make: Box<dyn FnMut(i128) -> Fut> = if dynamic {
             let per = per.clone();
-            let svc = TimeLimiterLayer::builder()
-                .timeout_fn(move |req: &i128| Duration::from_millis(per[*req as usize]))
-                .cancel_running_future(cancel)
-                .build()
-                .layer(inner);
+            let f = move |req: &i128| ms(per[*req as usize]);
+            let svc = if cancel_first {
+                TimeLimiterLayer::builder()
+                    .cancel_running_future(cancel)
+                    .timeout_fn(f.clone())
+                    .build()
+                    .layer(inner)
+            } else {
+                TimeLimiterLayer::builder()
+                    .timeout_fn(f)
+                    .cancel_running_future(cancel)
+                    .build()
+                    .layer(inner)
+            };
             Box::new(move |req| {
                 let mut c = svc.clone();
                 // GatedInner is always ready
@@ -41,11 +52,19 @@ fn run(s: &[i128]) -> Vec<i128> {
                 Box::pin(c.call(req)) as Fut
             })
         } else {
-            let svc = TimeLimiterLayer::builder()
-                .timeout_duration(Duration::from_millis(fixed))
-                .cancel_running_future(cancel)
-                .build()
-                .layer(inner);
+            let svc = if cancel_first {
+                TimeLimiterLayer::builder()
+                    .cancel_running_future(cancel)
+                    .timeout_duration(ms(fixed))
+                    .build()
+                    .layer(inner)
+            } else {
+                TimeLimiterLayer::builder()
+                    .timeout_duration(ms(fixed))
+                    .cancel_running_future(cancel)
+                    .build()
+                    .layer(inner)
+            };
             Box::new(move |req| {
                 let mut c = svc.clone();
                 let w = futures::task::noop_waker();
